@@ -16,6 +16,7 @@ import Proofs.DbLift
 import Proofs.DbInterleave
 import Proofs.DbTable
 import Proofs.DbStable
+import Proofs.IidCustom
 import HapModel.Gen.Services
 namespace Hap.C17
 open Hap Hap.Db
@@ -55,6 +56,45 @@ theorem C17_assign_fresh (m : Iid) (h : Iid.Good m) (o : Nat) (hn : m.iids o = n
   intro o' e
   have := (h.2 _ _ ((h.1 _ _).mp e)).2
   omega
+
+/-! ### application managers: `get_iid_for_obj` overridden, explicit and automatic iids mixed -/
+
+/-- **Application IIDManager subclasses.**  The application starts the counter at `start` and its
+    override hands out explicit (recorded) iids for some objects, the base class numbers the rest.
+    For every history of assign (automatic or explicit) / remove_obj / remove_iid that respects the
+    application's policy relative to a bound `B` (an explicit iid is held by nobody and lies at or
+    below the current counter or beyond `B`; the automatic counter stays below `B`): no exception
+    escapes, `iids` and `objs` stay mutually inverse, hence two objects never hold the same iid —
+    and the next automatic iid is held by nobody (an explicit iid never makes the base class repeat
+    a number). -/
+theorem C17_custom_manager (B start : Nat) (hs : start ≤ B) (ops : List Iid.OpX)
+    (hp : Iid.AllowedRun B (Iid.startAt start) ops) :
+    ∃ m, Iid.runX (Iid.startAt start) ops = some m ∧
+      (∀ o i, m.iids o = some i ↔ m.objs i = some o) ∧
+      (∀ o o' i, m.iids o = some i → m.iids o' = some i → o = o') ∧
+      (m.counter < B → m.objs (m.counter + 1) = none) := by
+  obtain ⟨m, e, g⟩ := Iid.runX_good (Iid.goodX_startAt B start hs) ops hp
+  exact ⟨m, e, g.1, fun o o' i e1 e2 => g.distinct e1 e2, fun hc => (g.auto_fresh hc).1⟩
+
+/-- non-vacuity: counter started at 30, recorded iids 20 (below), 30 (equal to the start) and
+    5003 (far above) mixed with automatic ones, a removal and the same recorded iid again -/
+example :
+    Iid.AllowedRun 100 (Iid.startAt 30)
+      [.auto 0, .explicit 1 20, .explicit 2 30, .auto 3, .explicit 4 5003, .removeObj 1, .explicit 1 20, .auto 5] :=
+  Iid.allowedRun_of_B (by decide)
+
+/-- `assign` that sets the counter to whatever iid was picked (a regression the check must see) -/
+def assignAtRewind (m : Iid) (o i : Nat) : Iid :=
+  match m.iids o with
+  | some _ => m
+  | none => { counter := i, iids := Iid.upd m.iids o (some i), objs := Iid.upd m.objs i (some o) }
+
+/-- With the counter rewound by an explicit iid below it, the base class repeats a number in use:
+    start 2; automatic 3, 4; explicit 2 (allowed by the policy) rewinds the counter to 2; the next
+    automatic iid is 3 again — objects 0 and 3 both hold it. -/
+theorem C17_counter_rewind_counterexample :
+    let m := (assignAtRewind (((Iid.startAt 2).assign 0).assign 1) 2 2).assign 3
+    m.iids 0 = some 3 ∧ m.iids 3 = some 3 := by decide
 
 /-! ### automatic and explicit accessory ids -/
 
